@@ -259,7 +259,10 @@ def run_parent(args):
             while pending and len(running) < max_par:
                 i = pending.pop(0)
                 out = os.path.join(workdir, f"shard{i}.pkl")
-                cmd = [sys.executable, "-X", "faulthandler", "-W", "ignore", "-m", "hv.runner", args.prop, "--child",
+                # one shard in four runs the interpreter the way packaged applications often do (-O: asserts and `if __debug__`
+                # blocks are stripped) - another part of the environment the code under test must not depend on
+                opt = ["-O"] if (i % 4 == 3 and not getattr(mod, "NO_OPTIMIZED_SHARDS", False)) else []
+                cmd = [sys.executable, *opt, "-X", "faulthandler", "-W", "ignore", "-m", "hv.runner", args.prop, "--child",
                        "--tier", tier, "--seed", str(args.seed), "--shard", str(i), "--nshards", str(nshards),
                        "--out", out]
                 errf = open(os.path.join(workdir, f"shard{i}.err"), "wb")
